@@ -515,6 +515,27 @@ func drcCases(b *baseCase, mk func() map[string]string, class, mut string, emit 
 	})
 }
 
+// remarkFirst puts a remark line in front of the first line of every ACL (ASA: `access-list NAME remark …`
+// before the first `access-list NAME …`; IOS: ` remark …` as first sub command of `ip access-list extended NAME`).
+func remarkFirst(typ, text string) string {
+	var out []string
+	seen := map[string]bool{}
+	for _, l := range strings.Split(text, "\n") {
+		w := strings.Fields(l)
+		if typ == "ASA" && len(w) >= 3 && w[0] == "access-list" && l[0] != ' ' && !seen[w[1]] {
+			seen[w[1]] = true
+			if w[2] != "remark" {
+				out = append(out, "access-list "+w[1]+" remark first line")
+			}
+		}
+		out = append(out, l)
+		if typ == "IOS" && len(w) == 4 && w[0] == "ip" && w[1] == "access-list" && w[2] == "extended" && l[0] != ' ' {
+			out = append(out, " remark first line")
+		}
+	}
+	return strings.Join(out, "\n")
+}
+
 // enumerate calls emit for every member of the family, in a fixed order.
 func enumerate(bases []baseCase, emit emitFn) {
 	seenLine := map[uint64]bool{}
@@ -537,6 +558,43 @@ func enumerate(bases []baseCase, emit emitFn) {
 				}
 				return f
 			}, "crosstype", "as "+t, emit)
+		}
+		// legal reshaping: every ACL starts with a remark line (the first command of an ACL is then of another
+		// command type than its extended lines); in all files, and in one file with the other ones emptied, so that
+		// it is the first ACL the process sees whatever the argument order
+		if b.typ == "ASA" || b.typ == "IOS" {
+			var cfgNames []string
+			for n := range b.files {
+				if isConfigFile(n) && remarkFirst(b.typ, b.files[n]) != b.files[n] {
+					cfgNames = append(cfgNames, n)
+				}
+			}
+			sort.Strings(cfgNames)
+			if len(cfgNames) > 0 {
+				drcCases(b, func() map[string]string {
+					f := cloneFiles(b.files)
+					for _, n := range cfgNames {
+						f[n] = remarkFirst(b.typ, f[n])
+					}
+					return f
+				}, "aclhead", "remark line first in every ACL of every file", emit)
+			}
+			for _, only := range cfgNames {
+				only := only
+				drcCases(b, func() map[string]string {
+					f := cloneFiles(b.files)
+					for n := range f {
+						if isConfigFile(n) {
+							if n == only {
+								f[n] = remarkFirst(b.typ, f[n])
+							} else {
+								f[n] = ""
+							}
+						}
+					}
+					return f
+				}, "aclhead", "remark line first in every ACL of "+only+", other files empty", emit)
+			}
 		}
 		names := make([]string, 0, len(b.files))
 		for n := range b.files {
